@@ -76,16 +76,32 @@ def char_boundary_ops(P, fns):
     str / String range indexing). returns [(fn, site, guarded)] — guarded when the same function
     derives or tests offsets with is_char_boundary / char_indices / find / len_utf8 (the repo's idioms)."""
     import re as _re
+    from ..prov import reads_locals as _rl
     out = []
     for f in fns:
-        g = None
+        guards = None
         for s_ in f.sites():
             if _re.search(CHAR_BOUNDARY_OPS, s_.callee):
                 # a full-range index str[..] cannot panic
                 if 'RangeFull' in s_.full:
                     continue
-                if g is None:
-                    g = bool(f.calls(CHAR_BOUNDARY_GUARDS))
+                if guards is None:
+                    guards = f.calls(CHAR_BOUNDARY_GUARDS)
+                # the guard has to be about THIS offset: the offset operand is computed from a guard's result
+                # (char_indices / find / len_utf8 arithmetic), or the very local is tested with is_char_boundary;
+                # an unrelated `'…'.len_utf8()` elsewhere in the function guards nothing
+                offs = set()
+                for a in s_.args[1:]:
+                    offs |= _rl(f, a)
+                # the constant 0 (`insert(0, ..)`) is always a boundary; any other constant is not
+                g = False
+                for c_ in guards:
+                    if c_.dest and c_.dest['l'] in offs:
+                        g = True
+                    if c_.name in ('is_char_boundary', 'floor_char_boundary', 'ceil_char_boundary') and len(c_.args) > 1 and (_rl(f, c_.args[1]) & offs):
+                        g = True
+                if not g and s_.args[1:] and all(op_const(a) is not None and str(op_const(a).get('v')) == '0' for a in s_.args[1:]):
+                    g = True
                 out.append((f, s_, g))
     return out
 
